@@ -16,12 +16,14 @@ def families(tier):
     return [('structure4', execlib.fam_structure(4, 'PQUG', 'CFXE')),
             ('branches2', execlib.fam_branches(2, range(8))),
             ('branches3', execlib.fam_branches(3, (0, 3))),
-            ('teardown-nesting', execlib.fam_teardown_nesting())]
+            ('teardown-nesting', execlib.fam_teardown_nesting()),
+            ('checkpoint-context', execlib.fam_checkpoint_context())]
   return [('structure5', execlib.fam_structure(5, 'PQUG', 'CFXE')),
           ('branches3', execlib.fam_branches(3, range(8))),
           ('branches4', execlib.fam_branches(4, (1, 6), kinds='PBKU')),
           ('groups-abort', execlib.fam_groups(4, 'CEA')),
-          ('teardown-nesting', execlib.fam_teardown_nesting())]
+          ('teardown-nesting', execlib.fam_teardown_nesting()),
+          ('checkpoint-context', execlib.fam_checkpoint_context())]
 
 
 def main(chk):
